@@ -3,9 +3,9 @@ import ast
 
 from ..core import rule
 from ..index import AnalysisError, dotted, src, walk_no_nested, names_in
-from ..cfg import CFG
-from ..domains import check_pred, linform, Lin
-from ..util import node_calls, pred_is
+from ..cfg import CFG, eval3, UNK
+from ..domains import check_pred, linform, Lin, assignments, eval_pred
+from ..util import node_calls, pred_is, cfg_nodes_containing, explore, mk_atoms
 from .slots import BARCODEPARSER
 
 CLS = 'BarcodeParser'
@@ -26,50 +26,108 @@ def r1(ctx):
         return
     sv = srt[0].targets[0].id
     okarg = src(srt[0].value.args[0]) == f'hammingSpace[{key}]' and not srt[0].value.keywords
-    skip = [s for s in l.body if isinstance(s, ast.If) and len(s.body) >= 1 and isinstance(s.body[-1], ast.Continue) and sv in names_in(s.test)]
-    if len(skip) != 1:
-        ctx.emit('C03-R1', False, BARCODEPARSER, l, 'no tie test (skip of ambiguous candidates) found before registration: a barcode equally close to two whitelist entries is assigned',
-                 key='tie-guard', what='expand: tie test missing')
-        return
-    t = skip[0].test
+    calls = [c for c in walk_no_nested(l) if isinstance(c, ast.Call) and src(c.func) == 'self.addBarcode']
+    if len(calls) != 1:
+        raise AnalysisError('expand: registration call self.addBarcode not found in the resolution loop')
+    reg = calls[0]
 
     def atom(x):
         s_ = src(x)
         return {f'len({sv})': 'n', f'{sv}[0][0]': 'd0', f'{sv}[1][0]': 'd1', f'{sv}[-1][0]': 'dl'}.get(s_)
     cons = lambda e: e['n'] >= 1 and 0 <= e['d0'] <= e['d1'] <= e['dl'] and (e['n'] != 2 or e['dl'] == e['d1']) and (e['n'] != 1 or e['dl'] == e['d0'])
-    try:
-        ncase, bad = check_pred(t, lambda e: e['n'] > 1 and e['d0'] == e['d1'], symbols=['n', 'd0', 'd1', 'dl'], constraint=cons, atom_name=atom, extra_consts=(0, 1, 2, 3))
-    except AnalysisError as ex:
-        ctx.emit('C03-R1', False, BARCODEPARSER, skip[0], f'tie test `{src(t)}` not interpretable: {ex}', key='tie-guard', undecided=True)
-        return
+    # Abstract interpretation of one iteration over every abstract candidate list (n, d0 <= d1 <= d_last): tests over the sorted candidate
+    # list are evaluated on the abstract case, tests over tracked locals (`closest is None` after `closest = None`) on the path's constants;
+    # the registration must be reached exactly when the two smallest distances differ (or there is one candidate) - however the skip is
+    # written (continue guard, positive if, helper returning None ...)
+    cfg = CFG(l.body, exceptions=False)
+    reg_ids = set(cfg_nodes_containing(cfg, reg))
+    NONNULL = object()
+    ncase = 0
+    bad = []
+    prov = set()
+    for case in assignments(['n', 'd0', 'd1', 'dl'], (0, 1, 2, 3), (), cons):
+        ncase += 1
+
+        def step(state, node, label, case=case):
+            env, exprs, hit = state
+            if node.kind == 'test' and label in ('true', 'false') and isinstance(node.ast, ast.If):
+                t = node.ast.test
+                v = UNK
+                if sv in names_in(t):
+                    try:
+                        v = bool(eval_pred(t, case, atom))
+                    except Exception:
+                        v = UNK
+                else:
+                    v = eval3(t, env)
+                if v is not UNK and bool(v) != (label == 'true'):
+                    return None
+            if node.kind == 'stmt' and isinstance(node.ast, ast.Assign) and len(node.ast.targets) == 1 and isinstance(node.ast.targets[0], ast.Name):
+                env = dict(env)
+                exprs = dict(exprs)
+                val = node.ast.value
+                env[node.ast.targets[0].id] = val.value if isinstance(val, ast.Constant) else (NONNULL if isinstance(val, (ast.Subscript, ast.Tuple, ast.List)) else
+                                                                                                 (env.get(val.id, UNK) if isinstance(val, ast.Name) else UNK))
+                exprs[node.ast.targets[0].id] = val
+            if node.kind == 'stmt' and isinstance(node.ast, ast.Assign) and len(node.ast.targets) == 1 and isinstance(node.ast.targets[0], ast.Tuple):
+                exprs = dict(exprs)
+                exprs[src(node.ast.targets[0])] = node.ast.value
+            if node.id in reg_ids:
+                hit = True
+                un = [(k, v) for k, v in exprs.items() if k.startswith('(')]
+                for k, v in un:
+                    vv = v
+                    while isinstance(vv, ast.Name) and vv.id in exprs:
+                        vv = exprs[vv.id]
+                    prov.add((k, src(vv)))
+            return (env, exprs, hit)
+        outcomes = {hit for p_, (env, exprs, hit) in cfg.paths(state0=({}, {}, False), step=step) if cfg.nodes[p_[-1][0]].info in ('fall', 'continue')}
+        tie = case['n'] > 1 and case['d0'] == case['d1']
+        if outcomes != {not tie}:
+            if len(bad) < 5:
+                bad.append({'case': dict(case), 'registered': sorted(outcomes), 'tie': tie})
     ctx.counters['abstract_cases'] += ncase
-    ctx.emit('C03-R1', not bad and okarg, BARCODEPARSER, skip[0], f'tie test `{src(t)}` over {ncase} abstract candidate lists (n, d0 <= d1 <= d_last) ' +
-             ('== (two or more candidates and the two smallest distances are equal)' if not bad else
-              f'differs at {bad[0]["case"]}: ' + ('an ambiguous barcode is registered' if not bad[0]['code'] else 'an unambiguous barcode is dropped')),
+    ctx.emit('C03-R1', not bad and okarg, BARCODEPARSER, reg, f'registration is reached iff the two smallest candidate distances differ, over {ncase} abstract candidate lists (n, d0 <= d1 <= d_last)'
+             if not bad else f'tie handling differs at {bad[0]["case"]}: ' + ('an ambiguous barcode is registered' if bad[0]['tie'] else 'an unambiguous barcode is dropped (or registered on some paths only)'),
              key='tie-guard', witness=bad[0] if bad else None, what='expand: tie test does not compare the two smallest distances')
     ctx.exhaustive['C03-R1'] = True
     # registration from the minimal candidate
-    un = [s for s in l.body if isinstance(s, ast.Assign) and isinstance(s.targets[0], ast.Tuple) and src(s.value) == f'{sv}[0]']
-    call = [c for c in walk_no_nested(l) if isinstance(c, ast.Call) and src(c.func) == 'self.addBarcode']
     ok = False
     detail = 'registration not found'
-    if len(un) == 1 and len(call) == 1 and len(un[0].targets[0].elts) == 2:
-        dv, ov = [e.id for e in un[0].targets[0].elts]
-        kw = {k.arg: src(k.value) for k in call[0].keywords}
-        pos = [src(a) for a in call[0].args]
-        ok = kw.get('barcode') == key and kw.get('index') == f'self.barcodes[alias][{ov}]' and kw.get('hammingDistance') == dv and kw.get('originBarcode') == ov and pos == ['alias'] \
-            and un[0].lineno > skip[0].lineno
-        detail = f'addBarcode(barcode={kw.get("barcode")}, index={kw.get("index")}, hammingDistance={kw.get("hammingDistance")}, originBarcode={kw.get("originBarcode")}) with ({dv}, {ov}) = {sv}[0]'
-    ctx.emit('C03-R1', ok, BARCODEPARSER, call[0] if call else l, detail, key='registration-provenance')
+    unp = {(k, v) for k, v in prov}
+    if len(unp) == 1:
+        k, v = next(iter(unp))
+        names = [x.strip() for x in k.strip('()').split(',')]
+        if len(names) == 2 and v == f'{sv}[0]':
+            dv, ov = names
+            kw = {k_.arg: k_.value for k_ in reg.keywords}
+            pos = [src(a_) for a_ in reg.args]
+            idx = kw.get('index')
+            idx_ok = False
+            if isinstance(idx, ast.Subscript) and src(idx.slice) == ov:
+                base = idx.value
+                if isinstance(base, ast.Name):
+                    defs = [s_ for s_ in walk_no_nested(f) if isinstance(s_, ast.Assign) and len(s_.targets) == 1 and src(s_.targets[0]) == base.id]
+                    base = defs[0].value if len(defs) == 1 else base
+                idx_ok = src(base) == 'self.barcodes[alias]'
+            ok = src(kw.get('barcode')) == key and idx_ok and src(kw.get('hammingDistance')) == dv and src(kw.get('originBarcode')) == ov and pos == ['alias']
+            detail = f'addBarcode(barcode={src(kw.get("barcode"))}, index={src(idx) if idx is not None else None}, hammingDistance={src(kw.get("hammingDistance"))}, originBarcode={src(kw.get("originBarcode"))}) with ({dv}, {ov}) = {v}'
+    ctx.emit('C03-R1', ok, BARCODEPARSER, reg, detail, key='registration-provenance')
     # candidates are (distance, origin) tuples so that sorting orders by distance first
     app = [c for c in walk_no_nested(f) if isinstance(c, ast.Call) and isinstance(c.func, ast.Attribute) and c.func.attr == 'append' and 'hammingSpace[' in src(c.func.value)]
     ok = len(app) == 1 and isinstance(app[0].args[0], ast.Tuple) and [src(e) for e in app[0].args[0].elts] == ['hammingDistance', 'barcode']
     ctx.emit('C03-R1', ok, BARCODEPARSER, app[0] if app else f, 'candidates are stored as (distance, origin): sorting orders by distance first', key='candidate-tuple-order')
     ab = ctx.fn(BARCODEPARSER, f'{CLS}.addBarcode')
-    t0 = [s for s in ab.body if isinstance(s, ast.If)]
-    ok = bool(t0) and src(t0[0].test) == 'hammingDistance == 0' and 'self.barcodes[' in src(t0[0].body[0]) and 'self.extendedBarcodes[' in src(t0[0]) and \
-        '(index, originBarcode, hammingDistance)' in src(t0[0]).replace('\n', ' ').replace('  ', '')
-    ctx.emit('C03-R1', ok, BARCODEPARSER, ab, 'addBarcode: distance 0 -> exact table; otherwise extended table entry (index, origin, distance)', key='addBarcode-tables')
+    pa, pb, pi, pd, po = [x.arg for x in ab.args.args[1:6]]
+    ok = True
+    detail = []
+    for zero in (True, False):
+        rs = [r for r in explore(ab.body, mk_atoms({f'{pd} == 0': zero, f'{po} is None': False})) if r['kind'] in ('fall', 'return')]
+        want = ((f'self.barcodes[{pa}][{pb}]', pi, 'Assign'),) if zero else ((f'self.extendedBarcodes[{pa}][{pb}]', f'({pi}, {po}, {pd})', 'Assign'),)
+        good = bool(rs) and all(r['stores'] == want for r in rs)
+        ok = ok and good
+        detail.append(f'distance {"== 0" if zero else "> 0"}: stores {sorted({r["stores"] for r in rs})}')
+    ctx.emit('C03-R1', ok, BARCODEPARSER, ab, 'addBarcode: distance 0 -> exact table; otherwise extended table entry (index, origin, distance): ' + '; '.join(detail), key='addBarcode-tables')
 
 
 @rule('C03', 'C03-R3', 'candidates are generated for every distance 0..k inclusive, over the alphabet {A,C,G,T,N}; hamming_circle changes exactly '
@@ -106,27 +164,54 @@ def r3(ctx):
 def r4(ctx):
     f = ctx.fn(BARCODEPARSER, f'{CLS}.getIndexCorrectedBarcodeAndHammingDistance')
     b, a = f.args.args[1].arg, f.args.args[2].arg
-    ifs = [s for s in f.body if isinstance(s, ast.If)]
-    sig = [src(s.test) for s in ifs]
-    want = [f'{b} in self.barcodes[{a}]', f'{b} in self.extendedBarcodes[{a}]', f'{a} in self.pending_files']
-    ok = sig == want
-    ctx.emit('C03-R4', ok, BARCODEPARSER, f, f'lookup tests in order: {sig}' + ('' if ok else f' (expected {want})'), key='lookup-order')
-    if ok:
-        r0 = ifs[0].body[0]
-        okx = isinstance(r0, ast.Return) and src(r0.value) == f'(self.barcodes[{a}][{b}], {b}, 0)'
-        ctx.emit('C03-R4', okx, BARCODEPARSER, r0, f'exact hit returns {src(r0.value) if isinstance(r0, ast.Return) else None}', key='exact-hit')
-        r1_ = ifs[1].body[0]
-        okx = isinstance(r1_, ast.Return) and src(r1_.value) == f'self.extendedBarcodes[{a}][{b}]'
-        ctx.emit('C03-R4', okx, BARCODEPARSER, r1_, 'expanded hit returns the stored (index, origin, distance)', key='expanded-hit')
-        lz = ifs[2]
-        calls = [c for c in walk_no_nested(lz) if isinstance(c, ast.Call)]
-        names = [src(c.func) for c in calls]
-        rec = [c for c in calls if src(c.func).endswith('getIndexCorrectedBarcodeAndHammingDistance')]
-        okx = 'self.parse_pending_barcode_file_of_alias' in names and len(rec) == 1 and any(k.arg == 'try_lazy_load_pending' and src(k.value) == 'False' for k in rec[0].keywords) \
-            and [src(x) for x in rec[0].args] == [b, a]
-        ctx.emit('C03-R4', okx, BARCODEPARSER, lz, 'pending alias: load (with expansion) and retry once with lazy loading disabled', key='lazy-retry-once')
-    last = f.body[-1]
-    ctx.emit('C03-R4', isinstance(last, ast.Return) and src(last.value) == '(None, None, None)', BARCODEPARSER, last, 'unknown barcode -> (None, None, None)', key='miss', nontrivial=False)
+    lz = f.args.args[3].arg if len(f.args.args) > 3 else 'try_lazy_load_pending'
+    # decision table over (exact hit, expanded hit, alias pending, lazy loading allowed): the outcome of every feasible path
+    E, X, P = f'{b} in self.barcodes[{a}]', f'{b} in self.extendedBarcodes[{a}]', f'{a} in self.pending_files'
+    rows = []
+    import itertools
+    for e_, x_, p_, l_ in itertools.product((True, False), repeat=4):
+        rs = explore(f.body, mk_atoms({E: e_, X: x_, P: p_, lz: l_}))
+        outs = set()
+        for r in rs:
+            if r['kind'] == 'return' and r['stmt'] is not None and r['stmt'].value is not None:
+                outs.add(('return', src(r['stmt'].value), tuple(c for c in r['calls'] if c.startswith('self.parse_pending'))))
+            else:
+                outs.add((r['kind'], None, ()))
+        rows.append(((e_, x_, p_, l_), outs))
+    n = 0
+    problems = {'exact-hit': [], 'expanded-hit': [], 'miss': [], 'lazy-retry-once': []}
+    for (e_, x_, p_, l_), outs in rows:
+        n += 1
+        if e_:
+            if outs != {('return', f'(self.barcodes[{a}][{b}], {b}, 0)', ())}:
+                problems['exact-hit'].append(((e_, x_, p_, l_), sorted(outs, key=str)))
+        elif x_:
+            if outs != {('return', f'self.extendedBarcodes[{a}][{b}]', ())}:
+                problems['expanded-hit'].append(((e_, x_, p_, l_), sorted(outs, key=str)))
+        elif not p_:
+            if outs != {('return', '(None, None, None)', ())}:
+                problems['miss'].append(((e_, x_, p_, l_), sorted(outs, key=str)))
+        elif l_:
+            good = len(outs) == 1 and next(iter(outs))[0] == 'return' and next(iter(outs))[2] == (f'self.parse_pending_barcode_file_of_alias({a})',)
+            if good:
+                rv = next(iter(outs))[1]
+                good = rv.replace(' ', '') in (f'self.getIndexCorrectedBarcodeAndHammingDistance({b},{a},{lz}=False)', f'self.getIndexCorrectedBarcodeAndHammingDistance({b},{a},False)',
+                                                f'self.getIndexCorrectedBarcodeAndHammingDistance({b}={b},{a}={a},{lz}=False)', f'self.getIndexCorrectedBarcodeAndHammingDistance({a}={a},{b}={b},{lz}=False)')
+            if not good:
+                problems['lazy-retry-once'].append(((e_, x_, p_, l_), sorted(outs, key=str)))
+        else:
+            # pending alias but lazy loading disabled (the retry): must not load again / recurse
+            if any(o[0] == 'return' and 'getIndexCorrectedBarcodeAndHammingDistance' in (o[1] or '') for o in outs) or any(o[2] for o in outs):
+                problems['lazy-retry-once'].append(((e_, x_, p_, l_), sorted(outs, key=str)))
+    ctx.counters['abstract_cases'] += n
+    texts = {'exact-hit': 'an exact whitelist member returns (its index, itself, 0) whatever the other tables hold',
+             'expanded-hit': 'otherwise a member of the expanded table returns the stored (index, origin, distance)',
+             'miss': 'unknown barcode of a loaded alias -> (None, None, None)',
+             'lazy-retry-once': 'pending alias: load (with expansion) and retry once with lazy loading disabled'}
+    for k_, t_ in texts.items():
+        ctx.emit('C03-R4', not problems[k_], BARCODEPARSER, f, t_ + ('' if not problems[k_] else f' - differs for (exact, expanded, pending, lazy)={problems[k_][0][0]}: {problems[k_][0][1]}'),
+                 key={'exact-hit': 'exact-hit', 'expanded-hit': 'expanded-hit', 'miss': 'miss', 'lazy-retry-once': 'lazy-retry-once'}[k_], nontrivial=k_ != 'miss')
+    ctx.emit('C03-R4', not problems['exact-hit'] and not problems['expanded-hit'], BARCODEPARSER, f, 'lookup order: exact table before the expanded table (decision table over 16 cases)', key='lookup-order')
 
 
 @rule('C03', 'C03-R5', 'lazily loaded aliases are expanded exactly like eagerly loaded ones: a pending file is only ever loaded through the '
